@@ -270,6 +270,25 @@ def run(tier):
         else:
             if not (viols - known_here):
                 res.broke('theorem:' + thm, 'decide +kernel failed; oracle on the real tree finds only the known findings %s' % sorted(viols))
+        # loops and segments through the X12Path-based fetcher as well
+        for ip, n in nodes:
+            res.count()
+            p = n.get_path()
+            try:
+                got = m.getnodebypath2(p)
+            except Exception as ex:
+                got = ex
+            if got is not n and ('fetch', n._verif_label) not in viols:
+                import pyx12.path
+                xp = pyx12.path.X12Path(p)
+                if n.is_loop() and xp.seg_id is not None:
+                    key = 'pred:loop-id-reads-as-designator'
+                    what = 'loop id of segment-id shape: %s %r is parsed as a segment designator and not fetched' % (f, p)
+                else:
+                    key = 'map:%s:fetch2:%s' % (f, n._verif_label)
+                    what = '%s: getnodebypath2(%r) returns %r, not the node that reports this path' % (f, p, got)
+                res.violation(key, what, {'map': f, 'call': 'load_map_file(map).getnodebypath2', 'args': [p], 'observed': repr(got)[:200],
+                                          'required': 'the node whose get_path() is this path'})
         # element / composite / sub-element nodes: fetched by the path they report for themselves (getnodebypath2)
         nel = 0
         for ip, n in nodes:
